@@ -575,7 +575,7 @@ func (l *ArrayListOfValueIterator) NextValue() (Value, Value) {
 
 func (l *ArrayListOfValueIterator) Elements() iter.Seq[Value] {
 	return func(yield func(Value) bool) {
-		for ; l.Index >= l.ArrayList.Length(); l.Index++ {
+		for ; l.Index < l.ArrayList.Length(); l.Index++ {
 			if !yield((*l.ArrayList)[l.Index]) {
 				return
 			}
